@@ -192,6 +192,16 @@ def corner_corpus(start_id):
     inner1 = Shape(sid, f"CMid{sid}", [("pub", "i", inner2.name, True), ("pub", "y", "String", False)], "pub", ["Debug", "Clone", "PartialEq"], ["Debug", "Clone", "PartialEq"], [], inner2, cls="corner-inner")
     add([("pub", "m", inner1.name, True), ("pub", "z", "f64", False), ("pub", "m2", inner2.name, True)], derives=("Debug", "Clone", "PartialEq"), soa=("Debug", "Clone", "PartialEq"), nested=inner1,
         note="two levels of nesting, the same inner type twice")
+    # every field nested (the same inner type twice), and a one-field wrapper around another SoA struct
+    inner5 = Shape(sid, f"CInner{sid}", [("pub", "x", "u8", False), ("pub", "y", "String", False)], "pub", ["Debug", "Clone", "PartialEq"], ["Debug", "Clone", "PartialEq"], [], cls="corner-inner")
+    add([("pub", "p", inner5.name, True), ("pub", "q", inner5.name, True)], derives=("Debug", "Clone", "PartialEq"), soa=("Debug", "Clone", "PartialEq"), nested=inner5,
+        note="every field nested, the same inner type twice")
+    inner6 = Shape(sid, f"CInner{sid}", [("pub", "x", "f32", False)], "pub", ["Debug"], ["Debug"], [], cls="corner-inner")
+    add([("pub", "w", inner6.name, True)], derives=("Debug",), soa=("Debug",), nested=inner6, note="one field, nested")
+    # several attributes of the same name on one kind: all of them arrive
+    sh = add([("pub", "a", "u8", False), ("pub", "b", "String", False)], derives=("Debug",), soa=("Debug",),
+             attrs=[("Vec", "cfg_attr(all(), derive(Clone))"), ("Vec", "cfg_attr(all(), derive(PartialEq))")], note="two cfg_attr on one kind")
+    sh.extra = f"fn needs_both<T: Clone + PartialEq>() {{}}\n/// both requested impls exist\npub fn uses() {{ needs_both::<{sh.name}Vec>() }}"
     # nothing imported at the derive site (the `#[macro_use] extern crate soa_derive;` style), with and without nesting
     sh = add([("pub", "a", "u8", False), ("pub", "b", "String", False)], derives=("Debug", "Clone"), soa=("Debug", "Clone"), note="no import at the derive site")
     sh.no_import = True
